@@ -11,6 +11,7 @@ mod dndrv;
 mod keys;
 mod ossl;
 mod pemx;
+mod strdrv;
 mod project;
 mod util;
 mod verify;
@@ -35,6 +36,7 @@ fn main() {
 		"cert-cases" => certdrv::run_cases(&args[2], &args[3]),
 		"csr-cases" => csrdrv::run_csr_cases(&args[2], &args[3]),
 		"crl-cases" => csrdrv::run_crl_cases(&args[2], &args[3]),
+		"strings" => strdrv::run(&args[2], &args[3]),
 		"dn-cases" => dndrv::run_cases(&args[2], &args[3]),
 		"dn-random" => dndrv::run_random(&args[2], args[3].parse().unwrap(), args[4].parse().unwrap()),
 		other => {
